@@ -71,6 +71,9 @@ def split_dry_run(stdout):
     return res, order
 
 
+PRLIMIT = shutil.which('prlimit')
+
+
 def run_binary(args, env_dirs, extra_env=None, timeout=20, cwd=None, arg0=None, fsize_limit=None, as_uid=None, binary=None):
     env = {k: v for k, v in os.environ.items() if k not in ('PODMAN', 'QUADLET_UNIT_DIRS')}
     env['QUADLET_UNIT_DIRS'] = env_dirs
@@ -98,7 +101,12 @@ def run_binary(args, env_dirs, extra_env=None, timeout=20, cwd=None, arg0=None, 
             signal.signal(signal.SIGXFSZ, signal.SIG_IGN)
             resource.setrlimit(resource.RLIMIT_FSIZE, (fsize_limit, fsize_limit))
     try:
-        p = subprocess.run([binary or core.BIN] + args, env=env, capture_output=True, timeout=timeout, cwd=cwd, preexec_fn=pre)
+        cmd = [binary or core.BIN] + args
+        if as_uid is None and fsize_limit is None and PRLIMIT:
+            # the common case: bound the address space with the prlimit wrapper (no preexec_fn, so Python can use the fast spawn path)
+            cmd = [PRLIMIT, '--as=%d' % core.MEM_LIMIT] + cmd
+            pre = None
+        p = subprocess.run(cmd, env=env, capture_output=True, timeout=timeout, cwd=cwd, preexec_fn=pre)
         return p.returncode, p.stdout.decode('utf-8', 'replace'), p.stderr.decode('utf-8', 'replace')
     except subprocess.TimeoutExpired as ex:
         return 'timeout', (ex.stdout or b'').decode('utf-8', 'replace'), (ex.stderr or b'').decode('utf-8', 'replace')
